@@ -7,9 +7,14 @@
 //!     st:<b>:<seq>   buf = pli.stripe(seq)        (b = d?: EncodedSequence::to_striped)
 //!     cf:<M>         buf.configure(&motif) with motif.len() == M
 //!     cw:<k>         buf.configure_wrap(k)
+//!     sm:<seed>:<n>  buf = StripedSequence::sample(StdRng::seed_from_u64(seed), background(seed), n)
+//!     nw:<n>:<rows>  buf = StripedSequence::new(matrix with the given rows, n)?   (Err: `E`, buf unchanged)
 //! backends <b>: g = Pipeline::generic(), a = Pipeline::avx2(), dg/ds/da =
 //! Pipeline::dispatch() with the arm forced to Generic/Sse2/Avx2 (C = 32 only for
-//! everything except g).  Sequences are written one char per symbol
+//! everything except g); ng/nn (C = 16 only) = the dispatcher as compiled for arm/aarch64
+//! (16 lanes) with the arm Generic/Neon: both arms run the generic kernel there
+//! (GenStripeNet.disp_stripe_arm, regenerated from dispatch.rs), so on this host they
+//! are replayed through Pipeline::generic() at 16 columns.  Sequences are written one char per symbol
 //! ('a' + index), `-` for the empty sequence.
 //!
 //! `stripe run` reads input lines on stdin and prints them followed by
@@ -19,13 +24,18 @@
 //! rows one char per cell (`-` when there are no rows), index results one char
 //! per sampled index of `idx` (`P` = Index panicked), counts comma separated,
 //! all = Index at every position 0..len() (one char each, `P` = panicked, `-` when len() = 0),
+//! a 10th field x: `-`, or for `sm` ops `<draws>,<enc>` = the stream oracle (EncodedSequence::sample
+//! with the same seed / background for rows*C symbols = the draws in order) and
+//! EncodedSequence::sample(.., n),
 //! bm = `n` (not a stripe op or C != 32), `=` (generic and AVX2 stripe_into of
 //! this sequence into clones of the buffer gave identical len/wrap/matrix) or
 //! `!<detail>`.
 
 use lightmotif::abc::{Alphabet, Background, Dna, Protein, Symbol};
 use lightmotif::dense::DenseMatrix;
-use lightmotif::num::{PositiveLength, U1, U16, U2, U32, U4};
+use lightmotif::num::{PositiveLength, U1, U16, U2, U32, U4, U48, U64, U8};
+use rand::rngs::StdRng;
+use rand::SeedableRng;
 use lightmotif::pli::dispatch::Dispatch;
 use lightmotif::pli::{Pipeline, Stripe};
 use lightmotif::pwm::ScoringMatrix;
@@ -38,6 +48,8 @@ enum Op {
     Stripe(String, Vec<usize>),
     Configure(usize),
     ConfigureWrap(usize),
+    Sample(u64, usize),
+    New(usize, Vec<Vec<usize>>),
 }
 
 fn show_seq(s: &[usize]) -> String {
@@ -62,6 +74,8 @@ fn show_op(op: &Op) -> String {
         Op::Stripe(b, s) => format!("st:{}:{}", b, show_seq(s)),
         Op::Configure(m) => format!("cf:{}", m),
         Op::ConfigureWrap(k) => format!("cw:{}", k),
+        Op::Sample(seed, n) => format!("sm:{}:{}", seed, n),
+        Op::New(n, rows) => format!("nw:{}:{}", n, show_matrix(rows)),
     }
 }
 
@@ -72,6 +86,11 @@ fn parse_op(s: &str) -> Op {
         "st" => Op::Stripe(p[1].to_string(), parse_seq(p[2])),
         "cf" => Op::Configure(p[1].parse().unwrap()),
         "cw" => Op::ConfigureWrap(p[1].parse().unwrap()),
+        "sm" => Op::Sample(p[1].parse().unwrap(), p[2].parse().unwrap()),
+        "nw" => Op::New(
+            p[1].parse().unwrap(),
+            if p[2] == "-" { vec![] } else { p[2].split('/').map(parse_seq).collect() },
+        ),
         _ => panic!("bad op {}", s),
     }
 }
@@ -138,6 +157,10 @@ macro_rules! generic_cols {
                         let pli = Pipeline::<A, _>::generic();
                         <Pipeline<_, _> as Stripe<A, $c>>::stripe_into(&pli, seq, buf)
                     }
+                    "ng" | "nn" if <$c as typenum::Unsigned>::USIZE == 16 => {
+                        let pli = Pipeline::<A, _>::generic();
+                        <Pipeline<_, _> as Stripe<A, $c>>::stripe_into(&pli, seq, buf)
+                    }
                     _ => panic!("backend {} does not exist for this column count", b),
                 }
             }
@@ -147,13 +170,17 @@ macro_rules! generic_cols {
                         let pli = Pipeline::<A, _>::generic();
                         <Pipeline<_, _> as Stripe<A, $c>>::stripe(&pli, seq)
                     }
+                    "ng" | "nn" if <$c as typenum::Unsigned>::USIZE == 16 => {
+                        let pli = Pipeline::<A, _>::generic();
+                        <Pipeline<_, _> as Stripe<A, $c>>::stripe(&pli, seq)
+                    }
                     _ => panic!("backend {} does not exist for this column count", b),
                 }
             }
         }
     )*};
 }
-generic_cols!(U1, U2, U4, U16);
+generic_cols!(U1, U2, U4, U8, U16, U48, U64);
 
 impl<A: Alphabet> Cols<A> for U32 {
     const ALL: bool = true;
@@ -216,7 +243,7 @@ fn show_matrix(m: &[Vec<usize>]) -> String {
     }
 }
 
-fn observe<A: Alphabet, C: PositiveLength>(st: &StripedSequence<A, C>, idx: &[usize], bm: &str) -> String {
+fn observe<A: Alphabet, C: PositiveLength>(st: &StripedSequence<A, C>, idx: &[usize], bm: &str, extra: &str) -> String {
     let m = matrix_of(st);
     let ix: String = idx
         .iter()
@@ -243,7 +270,7 @@ fn observe<A: Alphabet, C: PositiveLength>(st: &StripedSequence<A, C>, idx: &[us
         })
         .collect();
     format!(
-        "{}|{}|{}|{}|{}|{}|{}|{}|{}",
+        "{}|{}|{}|{}|{}|{}|{}|{}|{}|{}",
         st.len(),
         st.wrap(),
         st.matrix().rows(),
@@ -252,7 +279,8 @@ fn observe<A: Alphabet, C: PositiveLength>(st: &StripedSequence<A, C>, idx: &[us
         counts,
         count1,
         bm,
-        if all.is_empty() { "-".to_string() } else { all }
+        if all.is_empty() { "-".to_string() } else { all },
+        extra
     )
 }
 
@@ -297,11 +325,29 @@ fn backend_mismatch<A: Alphabet, C: Cols<A>>(buf: &StripedSequence<A, C>, seq: &
     }
 }
 
+/// The background handed to `sample`: positive counts derived from the seed (wildcard rare).
+fn sample_background<A: Alphabet>(seed: u64) -> Background<A> {
+    let mut counts = generic_array::GenericArray::<usize, A::K>::default();
+    let mut x = seed | 1;
+    let n = counts.len();
+    for k in 0..n {
+        x = x.wrapping_mul(6364136223846793005).wrapping_add(1442695040888963407);
+        counts[k] = if k + 1 == n { 1 } else { 3 + ((x >> 33) % 9) as usize };
+    }
+    Background::<A>::from_counts(&counts).unwrap()
+}
+
+fn show_enc<A: Alphabet>(e: &EncodedSequence<A>) -> String {
+    let v: Vec<usize> = e.iter().map(|x| x.as_index()).collect();
+    show_seq(&v)
+}
+
 fn run_case<A: Alphabet, C: Cols<A>>(ops: &[Op], idx: &[usize]) -> String {
     let mut buf: StripedSequence<A, C> = StripedSequence::default();
     let mut out: Vec<String> = vec![];
     for op in ops {
         let mut bm = "n".to_string();
+        let mut extra = "-".to_string();
         let r = match op {
             Op::StripeInto(b, s) => {
                 let seq = symbols_of::<A>(s);
@@ -320,6 +366,46 @@ fn run_case<A: Alphabet, C: Cols<A>>(ops: &[Op], idx: &[usize]) -> String {
                 no_panic(|| buf.configure(&motif))
             }
             Op::ConfigureWrap(k) => no_panic(|| buf.configure_wrap(*k)),
+            Op::Sample(seed, n) => {
+                // the stream oracle: the same generator, background and distribution drive
+                // EncodedSequence::sample, whose symbols are the draws in order
+                let c = <C as typenum::Unsigned>::USIZE;
+                let cells = ((*n + c - 1) / c) * c;
+                let draws = no_panic(|| EncodedSequence::<A>::sample(StdRng::seed_from_u64(*seed), sample_background::<A>(*seed), cells));
+                let enc = no_panic(|| EncodedSequence::<A>::sample(StdRng::seed_from_u64(*seed), sample_background::<A>(*seed), *n));
+                extra = match (draws, enc) {
+                    (Some(d), Some(e)) => format!("{},{}", show_enc(&d), show_enc(&e)),
+                    _ => "P".to_string(),
+                };
+                no_panic(|| {
+                    buf = StripedSequence::<A, C>::sample(StdRng::seed_from_u64(*seed), sample_background::<A>(*seed), *n);
+                })
+            }
+            Op::New(n, rows) => {
+                let c = <C as typenum::Unsigned>::USIZE;
+                let built = no_panic(|| {
+                    let mut m = DenseMatrix::<A::Symbol, C>::new(rows.len());
+                    for (r, row) in rows.iter().enumerate() {
+                        assert_eq!(row.len(), c, "matrix row width");
+                        let syms = symbols_of::<A>(row);
+                        for (k, x) in syms.iter().enumerate() {
+                            m[r][k] = *x;
+                        }
+                    }
+                    StripedSequence::<A, C>::new(m, *n)
+                });
+                match built {
+                    None => None,
+                    Some(Ok(s)) => {
+                        buf = s;
+                        Some(())
+                    }
+                    Some(Err(_)) => {
+                        out.push("E".to_string());
+                        continue;
+                    }
+                }
+            }
         };
         force("");
         match r {
@@ -327,7 +413,7 @@ fn run_case<A: Alphabet, C: Cols<A>>(ops: &[Op], idx: &[usize]) -> String {
                 out.push("P".to_string());
                 break;
             }
-            Some(()) => out.push(observe(&buf, idx, &bm)),
+            Some(()) => out.push(observe(&buf, idx, &bm, &extra)),
         }
     }
     out.join(";")
@@ -340,7 +426,10 @@ fn dispatch_case(alpha: &str, c: usize, ops: &[Op], idx: &[usize]) -> String {
                 1 => run_case::<$a, U1>(ops, idx),
                 2 => run_case::<$a, U2>(ops, idx),
                 4 => run_case::<$a, U4>(ops, idx),
+                8 => run_case::<$a, U8>(ops, idx),
                 16 => run_case::<$a, U16>(ops, idx),
+                48 => run_case::<$a, U48>(ops, idx),
+                64 => run_case::<$a, U64>(ops, idx),
                 32 => run_case::<$a, U32>(ops, idx),
                 _ => panic!("unsupported column count {}", c),
             }
@@ -392,6 +481,15 @@ fn gen_seq(rng: &mut Rng, k: usize, len: usize) -> Vec<usize> {
 }
 
 fn gen_backend(rng: &mut Rng, c: usize) -> String {
+    if c == 16 {
+        // the 16-lane dispatcher of arm / aarch64 targets (replayed through the generic pipeline)
+        return (match rng.below(10) {
+            0..=2 => "ng",
+            3..=5 => "nn",
+            _ => "g",
+        })
+        .to_string();
+    }
     if c != 32 {
         return "g".to_string();
     }
@@ -417,7 +515,30 @@ fn gen_history(rng: &mut Rng, k: usize, c: usize, tier: &str, nops: usize) -> (V
     for i in 0..nops {
         let r = rng.below(100);
         let stripe = if i == 0 { r < 85 } else { r < 45 };
-        let op = if stripe {
+        let build = rng.below(100);
+        let op = if build < 7 {
+            // StripedSequence::sample: every cell random, padding included
+            let len = gen_len(rng, c, tier).min(1500);
+            lens.push(len);
+            rows = (len + c - 1) / c;
+            Op::Sample(rng.below(1 << 32), len)
+        } else if build < 14 {
+            // StripedSequence::new on a matrix with arbitrary contents: exactly enough rows,
+            // sometimes more, now and then one too few (Err)
+            let len = gen_len(rng, c, tier).min(600);
+            let need = (len + c - 1) / c;
+            let nrows = match rng.below(10) {
+                0 if need > 0 => need - 1,
+                1 => need + 1,
+                2 => need + 2,
+                _ => need,
+            };
+            if nrows * c >= len {
+                lens.push(len);
+                rows = nrows;
+            }
+            Op::New(len, (0..nrows).map(|_| gen_seq(rng, k, c)).collect())
+        } else if stripe {
             let len = gen_len(rng, c, tier);
             lens.push(len);
             rows = (len + c - 1) / c;
@@ -496,7 +617,7 @@ fn gen_case(rng: &mut Rng, id: usize, tier: &str) -> String {
         idx.dedup();
         return show_case(&id.to_string(), alpha, k, 32, &ops, &idx);
     }
-    let c = *rng.pick(&[1usize, 2, 4, 16, 32, 32, 32, 32]);
+    let c = *rng.pick(&[1usize, 2, 4, 8, 16, 16, 48, 64, 32, 32, 32, 32, 32, 32]);
     let nops = 1 + rng.below(12) as usize;
     let (ops, idx) = gen_history(rng, k, c, tier, nops);
     show_case(&id.to_string(), alpha, k, c, &ops, &idx)
@@ -523,7 +644,9 @@ fn main() {
                     .get("idx")
                     .map(|s| s.split(',').filter(|x| !x.is_empty()).map(|x| x.parse().unwrap()).collect())
                     .unwrap_or_default();
-                let obs = dispatch_case(&f["A"], f["C"].parse().unwrap(), &ops, &idx);
+                // a panic outside the per-op guards (e.g. StripedSequence::default() itself) is the
+                // observation `P` of the first op, not the death of the harness
+                let obs = no_panic(|| dispatch_case(&f["A"], f["C"].parse().unwrap(), &ops, &idx)).unwrap_or_else(|| "P".to_string());
                 println!("{} => {}", line, obs);
             }
         }
